@@ -345,6 +345,9 @@ func (fr *Frame) contractCall(fn *ssa.Function, fc *FuncContract, args []Val, bi
 	} else if fc.Trusted {
 		vc.note("trusted contract (body not verified): " + fc.Key)
 	}
+	if fc.Flags["frame_assumed"] != "" {
+		vc.note("footprint (modifies clause) assumed, not proved, for " + fc.Key)
+	}
 	return packResults(sig, results)
 }
 
